@@ -51,19 +51,27 @@ static int sec_begin(void)
 }
 static void sec_end(int i) { vrt_note_set(N_SECE(vrt_tid(), i), vrt_now() + 1); }
 
+#ifdef FLAVOR_BP
+#include <urcu/static/urcu-bp.h>
+/* bp: rcu_read_ongoing() registers a thread that is not registered yet - the oracle must not change who is a reader */
+#define ONGOING_OBSERVABLE() (URCU_TLS(urcu_bp_reader) != NULL)
+#else
+#define ONGOING_OBSERVABLE() 1
+#endif
+
 static void do_sync(void)
 {
 	int t = vrt_tid(), i = (int)vrt_note_inc(N_NGP(t));
-
-	int before = rcu_read_ongoing();
+	int obs = ONGOING_OBSERVABLE(), before = obs ? rcu_read_ongoing() : 0;
 
 	vrt_note_set(N_GPC(t, i), vrt_now() + 1);	/* first step of the call */
 	synchronize_rcu();
 	vrt_note_set(N_GPR(t, i), vrt_now());
 	/* qsbr: rcu_read_ongoing() tells whether the thread is online; a caller that was online is a reader again as soon
 	 * as the call returns (leader or merged waiter alike), otherwise its following reads are unprotected */
-	VRT_CHECK(!!rcu_read_ongoing() == !!before, "synchronize_rcu() changed the caller's read-side state: rcu_read_ongoing() was %d before "
-		  "the call and is %d after it", !!before, !!rcu_read_ongoing());
+	if (obs)
+		VRT_CHECK(!!rcu_read_ongoing() == !!before, "synchronize_rcu() changed the caller's read-side state: rcu_read_ongoing() was %d before "
+			  "the call and is %d after it", !!before, !!rcu_read_ongoing());
 }
 
 static void check_intervals(const char *what)
